@@ -152,7 +152,8 @@ class CellMethod(mixin.Container, core.CellMethod):
             out.append("#")
             out.append(f"# {self.construct_type}:")
             if method is not None:
-                out[-1] += f" {method}"
+                # Keep the comment on one line
+                out[-1] += " " + " ".join(f"{method}".splitlines())
 
         out.append(f"{name} = {namespace}{self.__class__.__name__}()")
 
